@@ -437,30 +437,34 @@ def gen_fexec_case(rng, max_calls=4, allow_fail=True):
             c["deps"] = sorted(rng.sample(range(1, i), rng.randint(1, min(2, i - 1))))
             if rng.random() < 0.2:
                 c["deps"].append(c["deps"][0])                 # the same future twice
-        if i > 1 and rng.random() < 0.15:
+        if i > 1 and rng.random() < 0.3:
             j = rng.randrange(1, i)
             if not calls[j - 1].get("same_as"):
                 c = {"args": list(calls[j - 1]["args"]), "deps": list(calls[j - 1]["deps"]), "same_as": j}
         calls.append(c)
     ops, pending, submitted, nshut = [], list(range(1, n + 1)), [], 0
+    nocancel = rng.random() < 0.5
     while True:
         r = rng.random()
         if pending and r < 0.55:
             i = pending.pop(0)
+            j = calls[i - 1].get("same_as")
+            if j and j in submitted and rng.random() < 0.6:
+                ops.append(["result", j])                      # the identical call has completed before it is submitted again
             ops.append(["submit", i])
             submitted.append(i)
-        elif submitted and r < 0.60:
+        elif submitted and r < 0.60 and not nocancel:
             ops.append(["cancel", rng.choice(submitted)])
         elif submitted and r < 0.75:
             ops.append(["result", rng.choice(submitted)])
         elif r < 0.85 and nshut < 2:
-            ops.append(["exit"] if rng.random() < 0.2 else ["shutdown", rng.random() < 0.7, rng.random() < 0.3])
+            ops.append(["exit"] if rng.random() < 0.2 else ["shutdown", rng.random() < 0.7, (not nocancel) and rng.random() < 0.3])
             nshut += 1
         elif not pending or rng.random() < 0.2:
             break
         if len(ops) > 12:
             break
-    return {"mode": "file", "calls": calls, "ops": ops}
+    return {"mode": "file", "calls": calls, "ops": ops, "nocancel": nocancel}
 
 
 def tid_coq_f(name):
